@@ -174,6 +174,7 @@ apply(int a)
 }
 
 static char path[400];
+static int small_server_big_client;
 static int start_failed;      /* the start state holds an endpoint that failed on purpose: later failures of its peer are not judged by the honest-failure oracle */
 static int start_has_reneg;   /* the start state already contains a renegotiation request */
 static char case_start[700];
@@ -196,6 +197,16 @@ explore(int remaining)
 		/* both endpoints are honest and the transport is faithful: no engine may ever fail */
 		{
 			int ec = br_ssl_engine_last_error(W.c.eng), es = br_ssl_engine_last_error(W.s.eng);
+			if (ec == 0 && es == BR_ERR_TOO_LARGE && small_server_big_client) {
+				/* a client with full-size buffers facing a server with minimum buffers (configurations 1, 2, 6: there for
+				   the handshake records larger than the server's input buffer): nothing tells that client to send small
+				   records (the extension only lets a client ask), so a large write of its application is refused by
+				   the server as documented: not a failure of an honest deployment the library could avoid */
+				vf_stat("unjudged_large_record_to_small_server", 1);
+				world_restore(&ws);
+				path[pl] = 0;
+				continue;
+			}
 			if ((ec != 0 || es != 0) && !start_failed) {
 				char key[80], what[200];
 				int reneg = start_has_reneg || strstr(path, "renegotiate") != NULL;
@@ -291,6 +302,7 @@ main(int argc, char **argv)
 			else if (layout == TP_LAYOUT_SPLIT1) cc.buflen = sc.buflen = 4096;
 			else { cc.buflen = sc.buflen = BR_SSL_BUFSIZE_INPUT; cc.buflen_out = sc.buflen_out = 512 + 85; }
 		}
+		small_server_big_client = (conf == 1 || conf == 2 || conf == 6);
 		if (conf == 1 || conf == 2 || conf == 6) {   /* the three layouts at minimum size */
 			/* client authentication; the client keeps full-size buffers whatever the server has, so that a small
 			   server receives unencrypted handshake records (certificate chain) larger than its whole input buffer */
